@@ -44,6 +44,52 @@ func isMetaDataPtr(v ssa.Value) bool {
 
 // c11r3: optional message fields. Every dereference of a *esdt.MetaData value is cut by its presence test; a value
 // decoded from a cross-shard payload rests on A-protomsg, whose emitter-side guarantee is checked at the Marshal sites.
+// metaDerefOK: the dereference of the metadata pointer is justified in this calling context — by a presence test that cuts
+// it (here or at a call above), or by A-protomsg (the entry was decoded from a protocol-generated payload on the destination
+// side: sender account absent) — or, for an unexported helper, in every calling context.
+func metaDerefOK(p *Prog, e *Env, in ssa.Instruction, ptr ssa.Value, depth int) (string, bool, string) {
+	s := EffectSite{Env: e, In: in}
+	atom := nilAtom(e.Term(ptr))
+	if fs, where, ok := s.CutInContext(func(f Fact) bool { return !f.Lin && !f.Pos && f.Atom == atom }, nil); ok {
+		return "cut in " + where + " by " + fs[0].String(), true, ""
+	}
+	top := e
+	var topAt ssa.Instruction = in
+	for top.Parent != nil {
+		topAt = top.Call
+		top = top.Parent
+	}
+	if ld, isLoad := ptr.(*ssa.UnOp); isLoad {
+		if fa, isFA := ld.X.(*ssa.FieldAddr); isFA && entryOrigin(e, fa.X, 0) == "decoded" {
+			if x, okx := entryContext(top.Fn); okx {
+				if _, ok2 := top.CutAt(topAt, nilPred(x.snd), nil); ok2 {
+					return "A-protomsg: payload decoded on the destination side (sender account absent); the emitter marshals only entries with metadata (checked below)", true, ""
+				}
+			}
+		}
+	}
+	if depth >= 3 || isExportedAPI(top.Fn) || len(p.Callers[top.Fn]) == 0 {
+		return "", false, s.Chain()
+	}
+	var bys []string
+	n := 0
+	for _, cs := range p.Callers[top.Fn] {
+		if !p.Src(cs.Parent()) {
+			continue
+		}
+		n++
+		by, ok, ctx := metaDerefOK(p, rebuildChain(p, e, cs), in, ptr, depth+1)
+		if !ok {
+			return "", false, ctx
+		}
+		bys = append(bys, by)
+	}
+	if n == 0 {
+		return "", false, s.Chain()
+	}
+	return "in every calling context: " + strings.Join(uniq(bys), " | "), true, ""
+}
+
 func c11r3(c *Ctx) {
 	const rule = "C11-R3"
 	c.Rule(rule, "TokenMetaData is dereferenced only where it is known to be present", 10)
@@ -80,24 +126,10 @@ func c11r3(c *Ctx) {
 					c.Triv(rule, FuncName(fn), construct, pos, "freshly allocated")
 					continue
 				}
-				by, ok, ctx := c.P.CutInAllContexts(fn, in, func(e *Env) func(Fact) bool {
-					atom := nilAtom(e.Term(ptr))
-					return func(f Fact) bool { return !f.Lin && !f.Pos && f.Atom == atom }
-				})
+				by, ok, ctx := metaDerefOK(c.P, e, in, ptr, 0)
 				if ok {
 					c.OK(rule, FuncName(fn), construct, pos, by)
 					continue
-				}
-				// A-protomsg: the entry was decoded from a protocol-generated payload on the destination side
-				if ld, isLoad := ptr.(*ssa.UnOp); isLoad {
-					if fa, isFA := ld.X.(*ssa.FieldAddr); isFA && entryOrigin(e, fa.X, 0) == "decoded" {
-						if x, okx := entryContext(fn); okx {
-							if _, ok2 := e.CutAt(in, nilPred(x.snd), nil); ok2 {
-								c.OK(rule, FuncName(fn), construct, pos, "A-protomsg: payload decoded on the destination side (sender account absent); the emitter marshals only entries with metadata (checked below)")
-								continue
-							}
-						}
-					}
 				}
 				c.FailX(Oblig{Rule: rule, Func: FuncName(fn), Construct: construct, Pos: pos, Kind: "violation",
 					Detail:   "TokenMetaData is dereferenced on a path where nothing establishes that it is non-nil (calling context: " + ctx + "): nil-pointer panic for an entry without metadata",
